@@ -11,8 +11,7 @@ the Python type of every numeric item (a float is an oracle failure).
 -/
 import QuantityModel.Proofs.Term
 import QuantityModel.Proofs.TermNormal
-import QuantityModel.Proofs.TermSem
-import QuantityModel.Proofs.Scale
+import QuantityModel.Proofs.RegistryTerm
 namespace QM.Props.C07
 open QM
 
@@ -149,15 +148,7 @@ theorem reduce_idempotent (hk : KeysNonneg env) (items : Items) :
 
 /-- In every registry reachable by well-formed declarations the two hypotheses
 hold: unit terms there normalise idempotently and to the canonical form. -/
-theorem keys_nonneg_registry (s : RegState) : KeysNonneg s.unitEnv := by
-  intro a
-  unfold keyOf
-  by_cases h : a < s.units.length
-  · rw [unitEnv_info s a h]; exact Int.natCast_nonneg _
-  · unfold Env.info RegState.unitEnv
-    simp only [List.getD_eq_getElem?_getD, List.getElem?_map,
-      List.getElem?_eq_none (not_lt.mp h), Option.map_none, Option.getD_none]
-    decide
+theorem keys_nonneg_registry (s : RegState) : KeysNonneg s.unitEnv := keysNonneg_unitEnv s
 
 theorem normalize_idempotent_reachable (s : RegState) (h : ReachableWF s) (t : Items) :
     termNormalized s.unitEnv (termNormalized s.unitEnv t) = termNormalized s.unitEnv t :=
